@@ -248,6 +248,12 @@ func (d *decompressor) nextBlockAt(off int64, rs io.ReadSeeker) *decompressor {
 	d.blk.setBase(d.cr.offset())
 	d.err = d.readMember()
 	if d.err != nil {
+		// The Block holds no member of this offset: drop the
+		// header and data left from its previous use so that
+		// it is not cached or served as the member at base.
+		base := d.blk.Base()
+		d.blk.setOwner(d.owner)
+		d.blk.setBase(base)
 		d.wg.Done()
 		return d
 	}
